@@ -5,9 +5,11 @@
 //! run, so each holds many channels, which also makes the routing tables interesting):
 //!   net      process P1 demuxes to TWO clusters A and B over channels with the SAME name and over unnamed
 //!            channels; a second process P2 demuxes to A over the same name; A's members send to process Q
-//!            (sender tag) and demux to B over one more shared name, and broadcast to B
-//!   net_v2   the same (without the broadcast) as a multi-version flow: B has a v0 and a v1
-//!            (`next_version`), reached by P1, P2 (v1 only) and A over the shared names
+//!            (sender tag) and demux to B over one more shared name
+//!   net_v2   the same as a multi-version flow: B has a v0 and a v1 (`next_version`), reached by P1,
+//!            P2 (v1 only) and A over the shared names
+//!   bcast    A's members broadcast and demux to B (its own shape: the simulator explores when each
+//!            destination member joins, which multiplies the executions of every script)
 //! A script is a list of sends; every member of every receiving location is observed
 //! (`sim_cluster_output` / `sim_output`). Small scripts are explored with `exhaustive`, larger random ones
 //! with seeded single-instance schedules (`fuzz_repro`, bytes from the monitor's RNG: reproducible).
@@ -181,17 +183,37 @@ fn build_net(versioned: bool) -> Net {
         outs.push(Out { label: "B(v1) from A 'm'", port: OutPort::CtA(o), class: 6, members: vec![2, 3] });
         flow.sim().with_cluster_size(&a, 2).with_cluster_size(&b, 2).with_cluster_size(&b2, 2).compiled()
     } else {
-        // chan 7 / class 7: A -> B broadcast (unnamed)
-        let (i, s) = a.sim_input::<Rec, TotalOrder, ExactlyOnce>();
-        let o = s
-            .broadcast(&b, TCP.fail_stop().bincode(), nondet!(/** membership is the simulator's */))
-            .entries_partially_ordered(nondet!(/** observer */))
-            .sim_cluster_output();
-        chans.push(Chan { label: "A->B broadcast", input: InPort::C(leak(i)), class: 7, mode: Mode::Bcast, src_members: a_members.clone() });
-        outs.push(Out { label: "B from A broadcast", port: OutPort::CtA(o), class: 7, members: b_members.clone() });
         flow.sim().with_cluster_size(&a, 2).with_cluster_size(&b, 3).compiled()
     };
     Net { name: if versioned { "net_v2" } else { "net" }, sim, chans, outs }
+}
+
+/// Broadcast lives in its own small shape: the simulator explores when each member of the destination
+/// cluster joins, which multiplies the executions of every script of the shape.
+fn build_bcast() -> Net {
+    let mut flow = FlowBuilder::new();
+    let a = flow.cluster::<TagA>();
+    let b = flow.cluster::<TagB>();
+    let mut chans = vec![];
+    let mut outs = vec![];
+    // chan 0 / class 0: A -> B broadcast (unnamed)
+    let (i, s) = a.sim_input::<Rec, TotalOrder, ExactlyOnce>();
+    let o = s
+        .broadcast(&b, TCP.fail_stop().bincode(), nondet!(/** membership is the simulator's */))
+        .entries_partially_ordered(nondet!(/** observer */))
+        .sim_cluster_output();
+    chans.push(Chan { label: "A->B broadcast", input: InPort::C(leak(i)), class: 0, mode: Mode::Bcast, src_members: vec![0, 1] });
+    outs.push(Out { label: "B from A broadcast", port: OutPort::CtA(o), class: 0, members: vec![0, 1] });
+    // chan 1 / class 1: A -> B demux over "m"
+    let (i, s) = a.sim_input::<(MemberId<TagB>, Rec), TotalOrder, ExactlyOnce>();
+    let o = s
+        .demux(&b, TCP.fail_stop().bincode().name("m"))
+        .entries_partially_ordered(nondet!(/** observer */))
+        .sim_cluster_output();
+    chans.push(Chan { label: "A->B 'm'", input: InPort::CdB(leak(i)), class: 1, mode: Mode::Demux, src_members: vec![0, 1] });
+    outs.push(Out { label: "B from A 'm'", port: OutPort::CtA(o), class: 1, members: vec![0, 1] });
+    let sim = flow.sim().with_cluster_size(&a, 2).with_cluster_size(&b, 2).compiled();
+    Net { name: "bcast", sim, chans, outs }
 }
 
 // -------------------------------------------------------------------------------------------------
@@ -335,6 +357,11 @@ fn script_of(sends: &[(usize, u32, Option<u32>)]) -> Vec<Msg> {
 
 fn exhaustive_scripts(net: &Net) -> Vec<Vec<Msg>> {
     let d = |c: usize, to: u32| (c, 0u32, Some(to));
+    if net.name == "bcast" {
+        let v: Vec<Vec<(usize, u32, Option<u32>)>> =
+            vec![vec![(0, 0, None)], vec![(0, 0, None), (0, 1, None)], vec![(0, 1, None), (1, 0, Some(1))]];
+        return v.iter().map(|s| script_of(s)).collect();
+    }
     let mut v: Vec<Vec<(usize, u32, Option<u32>)>> = vec![
         // same-numbered members of the two clusters over the same-named channels
         vec![d(0, 0), d(1, 0)],
@@ -358,9 +385,6 @@ fn exhaustive_scripts(net: &Net) -> Vec<Vec<Msg>> {
     if net.name == "net" {
         v.push(vec![d(1, 2), d(0, 1), d(4, 2)]);
         v.push(vec![(6, 0, Some(2)), (6, 1, Some(1))]);
-        // broadcast
-        v.push(vec![(7, 0, None), (7, 1, None)]);
-        v.push(vec![(7, 0, None), (6, 0, Some(0))]);
     } else {
         // chans 7 = P1->B(v1) 'x' (same logical channel as 1), 8 = P2->B(v1) 'x', 9 = A->B(v1) 'm' (as 6)
         v.push(vec![d(1, 0), d(7, 2)]);
@@ -519,11 +543,12 @@ fn build(name: &str) -> Net {
     match name {
         "net" => build_net(false),
         "net_v2" => build_net(true),
+        "bcast" => build_bcast(),
         other => panic!("unknown shape {other}"),
     }
 }
 
-const SHAPES: [&str; 2] = ["net_v2", "net"];
+const SHAPES: [&str; 3] = ["net_v2", "net", "bcast"];
 
 #[test]
 fn c35_sim_network() {
@@ -579,16 +604,17 @@ fn c35_sim_network() {
         }
         rep.count_n(&format!("{name}:ms_fuzz"), t2.elapsed().as_millis() as u64);
         if only.is_none() {
-            rep.require(rep.counter(&format!("{name}:exhaustive_executions")) >= 16, &format!("shape {name}: fewer than 16 exhaustive executions"));
+            let want = if name == "bcast" { 3 } else { 16 };
+            rep.require(rep.counter(&format!("{name}:exhaustive_executions")) >= want, &format!("shape {name}: fewer than {want} exhaustive executions"));
             rep.require(rep.counter(&format!("{name}:fuzz_executions")) >= fuzz_budget as u64, &format!("shape {name}: some seeded schedules did not complete"));
             rep.require(rep.counter(&format!("{name}:nontrivial_executions")) >= 20, &format!("shape {name}: fewer than 20 non-trivial executions"));
         }
     }
     rep.finish(
-        "Simulator network: 2 compiled flow shapes (net: P1 demuxes to clusters A and B over the same channel name and over \
+        "Simulator network: 3 compiled flow shapes (net: P1 demuxes to clusters A and B over the same channel name and over \
          unnamed channels, P2 demuxes to A over the same name, A's members send to process Q and demux to B over another shared \
-         name and broadcast to B; net_v2: the same without broadcast as a multi-version flow, B in two versions (next_version) \
-         reached by P1, P2 (v1 only) and A over the shared names). Hand-written 2-3 message scripts (same-numbered members of different \
+         name; net_v2: the same as a multi-version flow, B in two versions (next_version) reached by P1, P2 (v1 only) and A over \
+         the shared names; bcast: A's members broadcast and demux to B). Hand-written 2-3 message scripts (same-numbered members of different \
          clusters, two sources, cross-version addresses, repeated sends on one link) are explored with the simulator's \
          exhaustive engine; random 4-10 message scripts with one seeded schedule each. Every member of every receiver is \
          observed. Oracle per execution: each delivered value equals a sent one, comes out of an output of the channel it was \
